@@ -180,6 +180,13 @@ impl FramebufferTag {
                     // Ensure the slice can be created without causing UB
                     assert_eq!(mem::size_of::<FramebufferColor>(), 3);
 
+                    // The palette must lie inside the tag. Panics for a too
+                    // small tag, like `Reader` does.
+                    let len = num_colors as usize * mem::size_of::<FramebufferColor>();
+                    assert!(
+                        reader.off + len <= self.buffer.len(),
+                        "Embedded palette should be properly sized and available"
+                    );
                     unsafe {
                         slice::from_raw_parts(
                             reader.current_ptr().cast::<FramebufferColor>(),
